@@ -502,7 +502,14 @@ func (lr *lifeRun) execOp(t *Toks) error {
 			lc.tap.mu.Lock()
 			lc.tap.on = true // from here on every byte from the server must be inside a TLS record
 			lc.tap.mu.Unlock()
-			tc := tls.Client(lc.raw, lr.cliTLS)
+			// a StartTLS inside an established tunnel: the new session runs on top of the old one
+			var under net.Conn = lc.raw
+			lc.mu.Lock()
+			if lc.tlsConn != nil {
+				under = lc.tlsConn
+			}
+			lc.mu.Unlock()
+			tc := tls.Client(under, lr.cliTLS)
 			go func() {
 				err := tc.Handshake()
 				lc.mu.Lock()
